@@ -72,7 +72,7 @@ func TestSimFSAgainstRealDisk(t *testing.T) {
 			rp, sp := filepath.Join(real, p), filepath.Join("/simfs", p)
 			rq, sq := filepath.Join(real, q), filepath.Join("/simfs", q)
 			var a, b string
-			op := r.IntN(13)
+			op := r.IntN(14)
 			switch op {
 			case 0:
 				data := []byte(fmt.Sprintf("content %d/%d", seed, step))
@@ -154,6 +154,20 @@ func TestSimFSAgainstRealDisk(t *testing.T) {
 					return nil
 				})
 				a, b = errClass(e1)+":"+strings.Join(x, ","), errClass(e2)+":"+strings.Join(y, ",")
+			case 13:
+				flags := []int{os.O_WRONLY, os.O_WRONLY | os.O_CREATE, os.O_WRONLY | os.O_CREATE | os.O_TRUNC, os.O_WRONLY | os.O_TRUNC, os.O_WRONLY | os.O_CREATE | os.O_APPEND, os.O_WRONLY | os.O_CREATE | os.O_EXCL, os.O_RDWR | os.O_CREATE}[r.IntN(7)]
+				data := fmt.Sprintf("of %d/%d", seed, step)
+				f1, e1 := os.OpenFile(rp, flags, 0o644)
+				f2, e2 := FSOpenFile(sp, flags, 0o644)
+				a, b = errClass(e1), errClass(e2)
+				if e1 == nil {
+					_, w1 := f1.WriteString(data)
+					a += ":" + errClass(w1) + ":" + errClass(f1.Close())
+				}
+				if e2 == nil {
+					_, w2 := f2.WriteString(data)
+					b += ":" + errClass(w2) + ":" + errClass(f2.Close())
+				}
 			case 12:
 				x, e1 := os.Readlink(rp)
 				y, e2 := FSReadlink(sp)
